@@ -325,3 +325,119 @@ Theorem C06_whole_session_is_a_segment_of_the_trace :
     exists pre post, Pipeline.exec_trace E a w gens s = pre ++ Pipeline.go_trace (Pipeline.gen_run E g p) ++ post.
 Proof. exact Gengo.Props.Whole.Whole_session_is_a_segment_of_the_trace. Qed.
 Print Assumptions C06_whole_session_is_a_segment_of_the_trace.
+
+(* ---- one system, loader / tags side (Model/Tables.v, Props/Tables.v, notes/Tables.md) ----
+   (a) the type table of this file's model is the type table of C13's model (Model/Universe.v), so "package-scope
+       declaration" in C06_exactly_once is "entry of Types()" as C13 characterises it;
+   (b) the tag maps this file takes as DATA are what C12's model of ExtractCommentTags / Package.Doc
+       (Model/Comments.v) produces from the comment lines: the enabling rule stated on SOURCE COMMENT LINES. *)
+Require Gengo.Model.Universe Gengo.Proofs.Universe Gengo.Model.Comments Gengo.Spec.Comments
+        Gengo.Model.Tables Gengo.Props.Tables.
+From Coq Require ZArith.
+Module T := Gengo.Model.Tables.
+Module Uni := Gengo.Model.Universe.
+Module Cmt := Gengo.Model.Comments.
+Module CSp := Gengo.Spec.Comments.
+
+(* every Defs list of this model, every Defs list of C13's model (objects of all kinds) describing the same type
+   names, any two orders: same set of names, same lookup *)
+Theorem C06_table_is_C13_table :
+  forall os ds,
+    Permutation (T.types_of os) (map T.u_of_disp ds) ->
+    (forall n, In n (map fst (Uni.t_types (Uni.fill_tables Uni.all_fixed os))) <-> In n (keys (type_table true ds)))
+    /\ (forall n, Gengo.Proofs.Universe.unique_at os Uni.KType n ->
+          Uni.lookup Uni.KType n (Uni.fill_tables Uni.all_fixed os) = option_map td_id (lookup n (type_table true ds))).
+Proof. exact Gengo.Props.Tables.Tables_universe_is_dispatch. Qed.
+Print Assumptions C06_table_is_C13_table.
+
+(* C06_exactly_once speaks about exactly the types C13's Types() theorems characterise: every call is for an entry
+   of C13's table (that very object), and every entry of C13's table — package scope, hence neither blank nor
+   local nor a type parameter (C13_tables_only_package_scope) — is called exactly as the rule says *)
+Theorem C06_exactly_once_on_C13_types :
+  forall g G P defs pi ns os,
+    NoDup (keys G) -> NoDup (keys P) ->
+    (forall d, In d defs -> NoDup (keys (td_tags d))) ->
+    NoDup (map td_name (filter td_pkgscope defs)) ->
+    Permutation pi defs ->
+    Permutation ns (keys (type_table true pi)) ->
+    (forall d, In d defs -> td_action d <> AErr) ->
+    Permutation (T.types_of os) (map T.u_of_disp defs) ->
+    let Tb := Uni.fill_tables Uni.all_fixed os in
+    exists cs,
+      do_generate g G P (type_table true pi) ns = Ok (cs, false)
+      /\ NoDup cs
+      /\ (forall k d, In (k, d) cs -> In d defs /\ Uni.lookup Uni.KType (td_name d) Tb = Some (td_id d))
+      /\ (forall n x, Uni.lookup Uni.KType n Tb = Some x ->
+            exists d, In d defs /\ td_name d = n /\ td_id d = x
+                      /\ forall k, In (k, d) cs <->
+                           enabled_eff_spec (g_name g) G P (td_tags d) = true
+                           /\ ((k = CT /\ td_kind d = KNamed) \/ (k = CA /\ td_kind d = KAlias /\ g_alias g = true))).
+Proof. exact Gengo.Props.Tables.Tables_exactly_once_on_universe_types. Qed.
+Print Assumptions C06_exactly_once_on_C13_types.
+
+(* the rule on comment lines, for all global tags, package doc line lists and declaration doc line lists:
+   [T.source_rule]: `+gengo:g[=v]` on the closest level that has it decides (off iff the values, concatenated, are
+   "false"), declaration over package (later file over earlier) over global; otherwise any `+gengo:g:sub` enables *)
+Theorem C06_enabled_lines_rule :
+  forall g G pkgdocs lines,
+    NoDup (keys G) ->
+    T.enabled_from_lines g G (pkg_tags (map Gengo.Proofs.TablesB.tags_of_lines pkgdocs)) lines
+    = T.source_rule g G pkgdocs lines.
+Proof. exact Gengo.Props.Tables.Tables_enabled_lines_rule. Qed.
+Print Assumptions C06_enabled_lines_rule.
+
+(* end to end, all layouts satisfying C12's well-formedness: IsGeneratorEnabled(g, Context.Doc(typ)) at the line of
+   declaration d = the rule on the lines of the stand-alone comment group that ends on the line above d *)
+Theorem C06_enabled_from_source :
+  forall g G docs evs leads d,
+    NoDup (keys G) -> CSp.wf evs leads -> In d (CSp.decls_of evs) ->
+    T.enabled_from_source g G docs evs (Cmt.p_file (Cmt.d_pos d)) (Cmt.p_line (Cmt.d_pos d))
+    = T.source_rule g G (map Cmt.split_nl docs)
+                    (CSp.doc_lines_above leads (Cmt.p_file (Cmt.d_pos d)) (Cmt.p_line (Cmt.d_pos d))).
+Proof. exact Gengo.Props.Tables.Tables_enabled_from_source. Qed.
+Print Assumptions C06_enabled_from_source.
+
+(* Context.Doc asks at the NAME's position: same for every name of d when no name is on a continuation line (C12's
+   known finding; a TypeSpec starts with its name, so type declarations always satisfy it) ... *)
+Theorem C06_enabled_from_source_names :
+  forall g G docs evs leads d l,
+    NoDup (keys G) -> CSp.wf evs leads -> CSp.name_on_continuation_line evs = false ->
+    In d (CSp.decls_of evs) -> In l (Cmt.d_names d) ->
+    T.enabled_from_source g G docs evs (Cmt.p_file (Cmt.d_pos d)) l
+    = T.source_rule g G (map Cmt.split_nl docs)
+                    (CSp.doc_lines_above leads (Cmt.p_file (Cmt.d_pos d)) (Cmt.p_line (Cmt.d_pos d))).
+Proof. exact Gengo.Props.Tables.Tables_enabled_from_source_names. Qed.
+Print Assumptions C06_enabled_from_source_names.
+
+(* ... and not otherwise *)
+Theorem C06_enabled_from_source_names_refuted :
+  exists g G docs evs leads d l,
+    NoDup (keys G) /\ CSp.wf evs leads /\ In d (CSp.decls_of evs) /\ In l (Cmt.d_names d)
+    /\ T.enabled_from_source g G docs evs (Cmt.p_file (Cmt.d_pos d)) l = false
+    /\ T.source_rule g G (map Cmt.split_nl docs)
+                     (CSp.doc_lines_above leads (Cmt.p_file (Cmt.d_pos d)) (Cmt.p_line (Cmt.d_pos d))) = true.
+Proof. exact Gengo.Props.Tables.Tables_enabled_from_source_names_refuted. Qed.
+Print Assumptions C06_enabled_from_source_names_refuted.
+
+(* C06_exactly_once with the tags read from the source (what Corr/C06.v evaluates on every module case):
+   [T.tdef_from_source dtext] takes a declaration's tags from Text() of the comment group above it,
+   [T.pkg_tags_from_source] the package tags from Text() of the package docs; the "tag maps are maps" hypotheses are
+   discharged and "enabled" is the rule on comment lines *)
+Theorem C06_exactly_once_from_source :
+  forall g G ftexts dtext defs pi ns,
+    NoDup (keys G) ->
+    NoDup (map td_name (filter td_pkgscope defs)) ->
+    let sdefs := map (T.tdef_from_source dtext) defs in
+    let P := T.pkg_tags_from_source ftexts in
+    Permutation pi sdefs ->
+    Permutation ns (keys (type_table true pi)) ->
+    (forall d, In d defs -> td_action d <> AErr) ->
+    exists cs,
+      do_generate g G P (type_table true pi) ns = Ok (cs, false)
+      /\ NoDup cs
+      /\ forall k d', In (k, d') cs <->
+           exists d, In d defs /\ d' = T.tdef_from_source dtext d /\ td_pkgscope d = true
+             /\ T.source_rule (g_name g) G (map Cmt.split_nl ftexts) (CSp.spec_lines (dtext (td_id d))) = true
+             /\ ((k = CT /\ td_kind d = KNamed) \/ (k = CA /\ td_kind d = KAlias /\ g_alias g = true)).
+Proof. exact Gengo.Props.Tables.Tables_exactly_once_from_source. Qed.
+Print Assumptions C06_exactly_once_from_source.
